@@ -148,7 +148,7 @@ struct C12 : Prop {
 					// does not name, empty / repeated address lists ...): out-of-range field values in otherwise perfectly valid traffic
 					J ev1 = api::uplink_event(r, w, 0);
 					ref::Msg m; m.addr = j_bytes(ev1["node"]); m.seq = r.chance(500) ? 0 : r.byte(); m.type = (uint8_t) ev1.geti("type"); m.data = j_bytes(ev1["data"]);
-					if (r.chance(200)) { std::vector<const cfg::Board *> sa; for (auto &b : w.boards) if (b.present && b.secack()) sa.push_back(&b);
+					if (r.chance(100)) { std::vector<const cfg::Board *> sa; for (auto &b : w.boards) if (b.present && b.secack()) sa.push_back(&b);
 						if (!sa.empty()) { m.addr = sa[r.below(sa.size())]->addr; m.type = MSG_BM_POSITION; m.data = {r.byte(), r.byte(), r.byte(), r.byte(), r.byte()}; } }
 					bytes = ref::frame_msgs({m}); adv = true; inj = "valid-message-unusual-field-values";
 				} else if (x < 42) {
